@@ -1,6 +1,6 @@
 #!/bin/bash
 # usage: tools/try_patch.sh <patch.diff> <pid> [pid...]   -- applies the patch to /repo, runs the quick checks, reverts
-P=$1; shift
+P=$(realpath $1); shift
 git -C /repo apply "$P" || { echo "patch does not apply"; exit 2; }
 for pid in "$@"; do
   echo "=== $pid with $(basename $(dirname $P))/$(basename $P)"
